@@ -11,7 +11,7 @@
 (*   [k |-> "sin"|"cos"|"exp", a]                                          *)
 (*   [k |-> "ind", i, lo, hi] indicator of lo <= x_i < hi (rationals)      *)
 (***************************************************************************)
-EXTENDS Integers, Sequences, FiniteSets, TLC
+EXTENDS Integers, Sequences, FiniteSets, TLC, Salt
 
 C(n, d) == [k |-> "c", n |-> n, d |-> d]
 X(i) == [k |-> "x", i |-> i]
